@@ -98,6 +98,11 @@ def grid(tier, rng):
     for p in (5, 6):
         for _ in range(100 if tier == 'quick' else 4000):
             yield rng.uniform(1, 10) * 10.0 ** rng.randint(-15, 15), p
+    # mantissas in the top half percent of the decade (where a rounding of a helper string may carry), all exponents
+    for p in (3, 4):
+        for m in range(10 ** p - 5 * 10 ** (p - 3), 10 ** p):
+            for e in range(-15, 16):
+                yield float(f'{m}e{e - p + 1}'), p
     # values that round up into the next decade at precision p (rounding carry)
     for p in (1, 2, 3, 4, 5):
         for e in range(-12, 13):
